@@ -13,6 +13,7 @@ import (
 	"verif/internal/facts"
 	"verif/internal/gast"
 	"verif/internal/obs"
+	"verif/internal/ref"
 	"verif/internal/stats"
 	"verif/internal/val"
 )
@@ -68,7 +69,10 @@ func c11RunOn(c *val.Case, prep *val.Prepared, kb *ast.KnowledgeBase, removedLib
 			continue
 		}
 		tr, terr := prep.Solo.Truth(r.Name, live, dc)
-		if terr != nil {
+		// "fails to evaluate" is also decided by the reference interpreter: a fresh engine shares the
+		// evaluator with the engine under test and would hide a failure that is swallowed there
+		_, rerr := ref.New(before.Copy()).Eval(r.When)
+		if terr != nil || (rerr != nil && !ref.IsUndefined(rerr)) {
 			failing[r.Name] = true
 			continue
 		}
